@@ -259,8 +259,8 @@ theorem bump_prevPos (axis : Nat) (ij : Nat × Nat) (h : 1 ≤ coord axis ij) :
   obtain ⟨i, j⟩ := ij
   unfold bump prevPos; unfold coord at h
   by_cases hax : axis = 1
-  · simp only [hax, if_true] at h ⊢; congr 1; omega
-  · simp only [hax, if_false] at h ⊢; congr 1; omega
+  · simp only [hax, if_true, idxShift] at h ⊢; congr 1; omega
+  · simp only [hax, if_false, idxShift] at h ⊢; congr 1; omega
 
 theorem prevPos_bump (axis : Nat) (q : Nat × Nat) : prevPos axis (bump axis q) = q ∧ 1 ≤ coord axis (bump axis q) := by
   obtain ⟨i, j⟩ := q
@@ -288,8 +288,8 @@ theorem shifted_where2_mem [Sub α] (p : α → Bool) (axis : Nat) (x : List (Li
 theorem bump_lex (axis : Nat) (a b : Nat × Nat) (h : lexLt a b) : lexLt (bump axis a) (bump axis b) := by
   unfold lexLt bump at *
   by_cases hax : axis = 1
-  · simp only [hax, if_true]; omega
-  · simp only [hax, if_false]; omega
+  · simp only [hax, if_true, idxShift]; omega
+  · simp only [hax, if_false, idxShift]; omega
 
 theorem shifted_where2_sorted [Sub α] (p : α → Bool) (axis : Nat) (x : List (List α)) :
     ((where2From p 0 (diff2 axis x)).map (fun q => (bump axis q.1, q.2))).Pairwise
